@@ -618,7 +618,7 @@ HEAD = "From Coq Require Import List String Bool.\nFrom PV Require Import Repro.
 def guarded(f, *a):
     try:
         return f(*a), None
-    except Unsupported as u:
+    except (Unsupported, ValueError, TypeError, IndexError, KeyError, AttributeError, AssertionError, RecursionError) as u:   # any surprise in the source = fail closed
         return None, str(u)
     except Exception as e:       # any crash of the interpreter is a translator failure, never a guess
         return None, "internal: %r" % (e,)
